@@ -2,4 +2,8 @@ import FinProtoc.Props.C02
 #print axioms FinProtoc.Props.dec_sound
 #print axioms FinProtoc.Props.spec_roundtrip_plain
 #print axioms FinProtoc.Props.emitted_roundtrip_plain
+#print axioms FinProtoc.Props.spec_roundtrip_computed
+#print axioms FinProtoc.Props.emitted_roundtrip_computed
+#print axioms FinProtoc.Props.spec_roundtrip_full
+#print axioms FinProtoc.Props.emitted_roundtrip_full
 #print axioms FinProtoc.Props.dec_agree
